@@ -70,7 +70,7 @@ class Cfg(object):
         self.ndnumpy = True                    # fold regular dims into an n-d NumpyArray
         self.virtual = False
         self.p_none = 0.25
-        self.zero_fields = True
+        self.zero_fields = False
         self.__dict__.update(kw)
 
 
